@@ -1547,4 +1547,22 @@ theorem select_obs (cfg : Cfg) (σ : State) (s : Sid) (a : Attr) (v : Val) (fu :
     have := markRows_obs cfg s o a v hvol _ σ2 h2.1 h2.2 (Or.inl hmem)
     rw [(storeQ_facts _ s a v fu _).2]; exact this
 
+/-- a keyword lookup `E.get(id=o, a=v)` / `E.exists(id=o, a=v)` answered from the identity map reads `a` from the cached
+    object whether or not the criterion matches: the cached value is the recorded observation, and the answer is the comparison -/
+theorem find_cached_obs (cfg : Cfg) (σ : State) (s : Sid) (o : Obj) (a : Attr) (v x r : Val)
+    (hp : ((σ.sess s).objs o).present = true) (hx : ((σ.sess s).objs o).vals a = some x)
+    (h : (step cfg σ s (.find o a v)).2.res = .ok (some r)) (hw : ((σ.sess s).objs o).wbits a = false)
+    (hvol : cfg.volatile a = false) :
+    (((step cfg σ s (.find o a v)).1.sess s).objs o).obs a = some x ∧ r = (if x = v then 1 else 0) := by
+  have hwk := wake_sess σ s
+  have hw' : (((wake σ s).sess s).objs o).wbits a = false := by rw [hwk.1]; exact hw
+  have hx' : (((wake σ s).sess s).objs o).vals a = some x := by rw [hwk.1]; exact hx
+  have hp' : (((wake σ s).sess s).objs o).present = true := by rw [hwk.1]; exact hp
+  simp only [step, hp', if_true, hx', Option.isSome_some] at h ⊢
+  obtain ⟨y, hy, hf, hobs⟩ := getAttr_obs' cfg _ s o a _ r h hw' hvol
+  rw [hx'] at hy
+  have := Option.some.inj hy
+  subst this
+  exact ⟨hobs, hf.symm⟩
+
 end PonyVerif.Model.Occ
